@@ -12,8 +12,9 @@
    rationals (Pythagorean: 9/25 + 16/25, 1/9 + 4/9 + 4/9 ...), so every tap amplitude is
    rational; the fading generator is a TABLE of Gaussian integers indexed by
    (link, tap, rx antenna, tx antenna, absolute sample position); signals are Gaussian
-   integers; DFT sizes 1, 2, 4 have twiddles in {1, -i, -1, i}.  All values are Gaussian
-   rationals (GRat).
+   integers; DFT sizes 1, 2, 4 have twiddles in {1, -i, -1, i}, so all values are Gaussian
+   rationals (GRat).  DFT size 8 is computed in Q(zeta_8): cyclotomic integers of lib/Cyc2 over
+   one integer denominator (section 3a); such values are emitted as <<c0, c1, c2, c3, den>>.
 
    State (implementation shaped): the configuration `cid`, the generator position `gpos`
    (shared by all links: every link transmits exactly once per call), the link direction
@@ -35,7 +36,7 @@
    With all Dev flags FALSE the laws below (machine = property) hold on every transition.
    Dev flags switch single machine steps to what the code does today (SliceBlockSizeFloorDiv,
    MuSetPathlossNoneRaises) or to a plausible regression (the others); TLC must refute each. *)
-EXTENDS Integers, Sequences, FiniteSets, TLC, Emit, GRat
+EXTENDS Integers, Sequences, FiniteSets, TLC, Emit, GRat, Cyc2
 
 CONSTANTS Configs,   \* sequence of configuration records (see harness/props/c03.py)
           Table,     \* Table[link][tap][ra][ta][pos+1] = <<re, im>>   fading samples
@@ -180,7 +181,7 @@ ConvY(c, D, d, DN, s, n) ==
         IF m < 0 \/ m >= n THEN GZero
         ELSE GMul(DN[RU(d, ou, iu)][TU(d, ou, iu)][d1][RU(d, oa, ia)][TU(d, oa, ia)][m + 1], XS[iu][ia][m + 1])])])])])])])
 
-\* e-th power of the DFT twiddle exp(-2 pi i / fft), fft \in {1, 2, 4}
+\* e-th power of the DFT twiddle exp(-2 pi i / fft), fft \in {1, 2, 4}  (fft = 8: section 3a)
 W(fft, e) == LET q == (e * (4 \div fft)) % 4 IN
              IF q = 0 THEN GOne ELSE IF q = 1 THEN G(0, -1) ELSE IF q = 2 THEN G(-1, 0) ELSE G(0, 1)
 \* DFT over the delay axis of a dense response: FR[k+1][ra][ta][b]
@@ -218,6 +219,38 @@ FreqY(c, d, FR, sel, s, nb) ==
      GSum(InU(c, d), [iu \in 1..InU(c, d) |-> GSum(InA(c, d), [ia \in 1..InA(c, d) |->
         GMul(FR[RU(d, ou, iu)][TU(d, ou, iu)][sel[j + 1] + 1][RU(d, oa, ia)][TU(d, oa, ia)][b + 1],
              XS[iu][ia][k1])])])])])])
+
+
+(* ---- 3a. Q(zeta_8) for DFT size 8: <<c0, c1, c2, c3, den>> = (c0 + c1 z + c2 z^2 + c3 z^3) / den, ---- *)
+(*      z = exp(2 pi i / 8); numerators are elements of Z[zeta_8] (lib/Cyc2), den > 0, gcd 1: canonical   *)
+CRMake(a, d) ==
+  LET s == IF d < 0 THEN -1 ELSE 1
+      g == Gcd(Gcd(Gcd(Abs(a[1]), Abs(a[2])), Gcd(Abs(a[3]), Abs(a[4]))), Abs(d))
+  IN  IF a[1] = 0 /\ a[2] = 0 /\ a[3] = 0 /\ a[4] = 0 THEN <<0, 0, 0, 0, 1>>
+      ELSE <<(s * a[1]) \div g, (s * a[2]) \div g, (s * a[3]) \div g, (s * a[4]) \div g, (s * d) \div g>>
+CRZero == <<0, 0, 0, 0, 1>>
+CRNum(x) == <<x[1], x[2], x[3], x[4]>>
+CRFromG(g) == CRMake(CyFromG(8, <<g[1], g[2]>>), g[3])
+CRAdd(x, y) == CRMake(CyAdd(CyScale(y[5], CRNum(x)), CyScale(x[5], CRNum(y))), x[5] * y[5])
+CRMulG(g, x) == CRMake(CyMulG(<<g[1], g[2]>>, CRNum(x)), g[3] * x[5])          \* Gaussian rational times x
+CRMulZeta(x, k) == CRMake(CyMulZeta(CRNum(x), k), x[5])                          \* zeta_8^k times x, any integer k
+CRScaleRat(q, x) == CRMake(CyScale(q[1], CRNum(x)), q[2] * x[5])
+RECURSIVE CRSumTo(_, _)
+CRSumTo(f, n) == IF n = 0 THEN CRZero ELSE CRAdd(CRSumTo(f, n - 1), f[n])
+CRSum(n, f) == LET g == E(f) IN CRSumTo(g, n)
+
+\* 8-point DFT of a dense response (twiddle exp(-2 pi i k d / 8) = zeta_8^(-k d)) and the block-wise product
+FreqOfDense8(DL, nr, nt, nb) ==
+  E([k1 \in 1..8 |-> E([ra \in 1..nr |-> E([ta \in 1..nt |-> E([b \in 1..nb |->
+     CRSum(Len(DL), [d1 \in 1..Len(DL) |-> CRMulZeta(CRFromG(DL[d1][ra][ta][b]), -((k1 - 1) * (d1 - 1)))])])])])])
+FreqAll8(c, DN, nb) == E([ru \in 1..KR(c) |-> E([tu \in 1..KT(c) |-> FreqOfDense8(DN[ru][tu], NR(c), NT(c), nb)])])
+FreqY8(c, d, FR, sel, s, nb) ==
+  LET cnt == Len(sel)  XS == XArr(c, d, s, nb * cnt) IN
+  E([ou \in 1..OutU(c, d) |-> E([oa \in 1..OutA(c, d) |-> E([k1 \in 1..(nb * cnt) |->
+     LET b == (k1 - 1) \div cnt  j == (k1 - 1) % cnt IN
+     CRSum(InU(c, d), [iu \in 1..InU(c, d) |-> CRSum(InA(c, d), [ia \in 1..InA(c, d) |->
+        CRMulG(XS[iu][ia][k1],
+               FR[RU(d, ou, iu)][TU(d, ou, iu)][sel[j + 1] + 1][RU(d, oa, ia)][TU(d, oa, ia)][b + 1])])])])])])
 
 XTimeY(c, D, IR, d, o) == ConvY(c, D, d, DenseAll(c, D, IR, o.n), o.s, o.n)
 XFreqY(c, FR, d, o) == FreqY(c, d, FR, SelIdx(o), o.s, o.n)
@@ -280,6 +313,20 @@ MFreqY(c, D, T, d, p, o, s) ==
                           W(o.fft, sel[j + 1] * D.delays[i]))]),
                   XS[iu][ia][k1])]))])])])])
 
+\* the same with an 8-point transform (values in Q(zeta_8))
+MFreqY8(c, D, T, d, p, o, s) ==
+  LET sel == SelIdx(o)
+      cnt == Len(sel)
+      XS == XArr(c, d, s, o.n * cnt)
+  IN  E([ou \in 1..OutU(c, d) |-> E([oa \in 1..OutA(c, d) |-> E([k1 \in 1..(o.n * cnt) |->
+         LET b == (k1 - 1) \div cnt  j == (k1 - 1) % cnt IN
+         CRSum(InU(c, d), [iu \in 1..InU(c, d) |->
+            CRScaleRat(PA(c, p, RU(d, ou, iu), TU(d, ou, iu)),
+               CRSum(InA(c, d), [ia \in 1..InA(c, d) |-> CRMulG(XS[iu][ia][k1],
+                  CRSum(NTaps(D), [i \in 1..NTaps(D) |->
+                     CRMulZeta(CRFromG(T[RU(d, ou, iu)][TU(d, ou, iu)][i][MRa(d, oa, ia)][MTa(d, oa, ia)][b + 1]),
+                               -(sel[j + 1] * D.delays[i]))]))]))])])])])
+
 (* ====================================================================================== *)
 (* 5. Actions: one per public call                                                        *)
 (* ====================================================================================== *)
@@ -295,12 +342,14 @@ Transmit ==
 \* corrupt_data_in_freq_domain(signal o.s of o.n blocks, o.fft, selection o.sk / o.sel)
 TransmitFreq ==
   \E j \in 1..Len(C.ops) : LET o == C.ops[j] IN
-    /\ o.k = "F" /\ Mem(XDisc(C.prof)) < o.fft /\ Len(SelIdx(o)) >= 1 /\ o.n * Len(SelIdx(o)) <= MaxN
-    /\ \A q \in 1..Len(SelIdx(o)) : SelIdx(o)[q] \in 0..(o.fft - 1)
+    /\ o.k = "F" /\ Mem(XDisc(C.prof)) < o.fft
+    /\ LET sel == SelIdx(o) IN /\ Len(sel) >= 1 /\ o.n * Len(sel) <= MaxN
+                               /\ \A q \in 1..Len(sel) : sel[q] \in 0..(o.fft - 1)
     /\ gpos + o.n * o.fft <= C.maxpos
-    /\ gpos' = (IF FOutcome(o) = "ok" THEN (IF Dev.NoSkipBetweenBlocks THEN gpos + o.n ELSE gpos + o.n * o.fft)
-                ELSE IF FOutcome(o) = "raises-in-block" THEN gpos + 1 ELSE gpos)
-    /\ has' = (has \/ FOutcome(o) # "raises-before")
+    /\ LET out == FOutcome(o) IN
+         /\ gpos' = (IF out = "ok" THEN (IF Dev.NoSkipBetweenBlocks THEN gpos + o.n ELSE gpos + o.n * o.fft)
+                     ELSE IF out = "raises-in-block" THEN gpos + 1 ELSE gpos)
+         /\ has' = (has \/ out # "raises-before")
     /\ op' = o
     /\ UNCHANGED <<cid, dir, pl>>
 
@@ -382,17 +431,25 @@ TimeStep(o) ==
                       /\ Chk("Conv", y = ConvY(c, D, dir, DenseAll(c, D, Rep, o.n), o.s, o.n))
                       /\ o.s = 3 => Chk("Linear", y = GLin(MTimeY(c, D, T, dir, pl, o.n, 1), MTimeY(c, D, T, dir, pl, o.n, 2)))
 \* frequency domain: per block, multiplication by the DFT of the reported response at the selected carriers
+GLin8(A, B) == E([ou \in 1..Len(A) |-> E([oa \in 1..Len(A[ou]) |-> E([k \in 1..Len(A[ou][oa]) |->
+                 CRAdd(A[ou][oa][k], CRMulZeta(B[ou][oa][k], 2))])])])             \* i = zeta_8^2
 FreqStep(o) ==
   LET c == C
       D == MDisc(c.prof)
       XD == XDisc(c.prof)
       T == MTdlIR(c, D, gpos, o)
       Rep == MRep(c, pl, T)
-      y == MFreqY(c, D, T, dir, pl, o, o.s)
+      DN == DenseAll(c, D, Rep, o.n)
   IN  /\ Chk("Reported", Rep = XIR(c, XD, gpos, pl, o))
-      /\ Chk("Len", LenOK(y, c, dir, o.n * Len(SelIdx(o))))
-      /\ Chk("Freq", y = FreqY(c, dir, FreqAll(c, DenseAll(c, D, Rep, o.n), o.fft, o.n), SelIdx(o), o.s, o.n))
-      /\ o.s = 3 => Chk("Linear", y = GLin(MFreqY(c, D, T, dir, pl, o, 1), MFreqY(c, D, T, dir, pl, o, 2)))
+      /\ IF o.fft = 8
+           THEN LET y == MFreqY8(c, D, T, dir, pl, o, o.s) IN
+                /\ Chk("Len", LenOK(y, c, dir, o.n * Len(SelIdx(o))))
+                /\ Chk("Freq", y = FreqY8(c, dir, FreqAll8(c, DN, o.n), SelIdx(o), o.s, o.n))
+                /\ o.s = 3 => Chk("Linear", y = GLin8(MFreqY8(c, D, T, dir, pl, o, 1), MFreqY8(c, D, T, dir, pl, o, 2)))
+           ELSE LET y == MFreqY(c, D, T, dir, pl, o, o.s) IN
+                /\ Chk("Len", LenOK(y, c, dir, o.n * Len(SelIdx(o))))
+                /\ Chk("Freq", y = FreqY(c, dir, FreqAll(c, DN, o.fft, o.n), SelIdx(o), o.s, o.n))
+                /\ o.s = 3 => Chk("Linear", y = GLin(MFreqY(c, D, T, dir, pl, o, 1), MFreqY(c, D, T, dir, pl, o, 2)))
 
 ChanStep == /\ op'.k \in {"T", "Gen"} => TimeStep(op')
             /\ (op'.k = "F" /\ FOutcome(op') = "ok") => FreqStep(op')
@@ -414,8 +471,10 @@ Expected(o) ==
        [y |-> XTimeY(c, D, IR, dir, o), ir |-> IR, delays |-> D.delays, mem |-> Mem(D)]
   ELSE IF o.k = "F" THEN
        LET IR == XIR(c, D, gpos, pl, o)
-           FR == FreqAll(c, DenseAll(c, D, IR, o.n), o.fft, o.n) IN
-       [y |-> XFreqY(c, FR, dir, o), ir |-> IR, delays |-> D.delays, mem |-> Mem(D),
+           DN == DenseAll(c, D, IR, o.n)
+           FR == IF o.fft = 8 THEN FreqAll8(c, DN, o.n) ELSE FreqAll(c, DN, o.fft, o.n) IN
+       [y |-> IF o.fft = 8 THEN FreqY8(c, dir, FR, SelIdx(o), o.s, o.n) ELSE XFreqY(c, FR, dir, o),
+        ir |-> IR, delays |-> D.delays, mem |-> Mem(D),
         fr |-> FR, sel |-> SelIdx(o),
         fdbs |-> IF o.sk = "slice" THEN FloorDivBS(o) ELSE Len(SelIdx(o))]
   ELSE IF o.k = "Gen" THEN [ir |-> XIR(c, D, gpos, pl, o), delays |-> D.delays, mem |-> Mem(D)]
